@@ -263,8 +263,16 @@ def http_date(sec, style=0):
 class World(object):
     """The real application on a private directory, driven at the HTTP boundary, with a virtual clock."""
 
+    nworlds = 0
+
     def __init__(self, backend, path, tiles):
         import webtest
+        # every other world lives in a time zone west of Greenwich (fixed offset, no daylight saving): HTTP dates are GMT,
+        # whatever reads them as local time is wrong by hours there
+        World.nworlds += 1
+        self.tz = 'EST5' if World.nworlds % 2 else 'UTC'
+        os.environ['TZ'] = self.tz
+        _real_time.tzset()
         from mapproxy.config.loader import ProxyConfiguration
         from mapproxy.wsgiapp import MapProxyApp
         install()
@@ -289,6 +297,8 @@ class World(object):
                 raise tlc.MachineryError('the layer "over" could not be filled: %s %s' % (r.status, r.body[:200]))
 
     def close(self):
+        os.environ['TZ'] = 'UTC'
+        _real_time.tzset()
         if _VTime.world is self:
             _VTime.world = None
         try:
